@@ -72,7 +72,7 @@ func ruleFloatFmt(p *Prog, r *Result) {
 		})
 	}
 	r.note("float_formatting_calls", n)
-	r.floor("strconv float formatting calls", n, 2)
+	r.floor("strconv float formatting calls", n, 1)
 }
 
 // ---------------- MAKEAPPEND ----------------
@@ -200,8 +200,28 @@ func rulePutKind(p *Prog, r *Result) {
 				if !isC || !c.Call.IsInvoke() || c.Call.Method.Name() != "ReturnType" {
 					return
 				}
-				owner, fld, _, lf := loadedField(c.Call.Value)
-				if !lf || owner == nil || owner.Obj().Name() != "PutKVPair" || fld != field {
+				isPairField := func(v ssa.Value) bool {
+					owner, fld, _, lf := loadedField(v)
+					return lf && owner != nil && owner.Obj().Name() == "PutKVPair" && fld == field
+				}
+				recv := c.Call.Value
+				match := isPairField(recv)
+				if pa, isP := recv.(*ssa.Parameter); isP && !match {
+					// a helper asked to judge an expression (requireStrOrNumber(expr)): what the validation hands it
+					for pi, q := range f.Params {
+						if q != pa {
+							continue
+						}
+						for _, caller := range fs {
+							allInstrs(caller, func(x ssa.Instruction) {
+								if cc, ok := x.(*ssa.Call); ok && cc.Call.StaticCallee() == f && pi < len(cc.Call.Args) && isPairField(cc.Call.Args[pi]) {
+									match = true
+								}
+							})
+						}
+					}
+				}
+				if !match {
 					return
 				}
 				for _, ref := range *c.Referrers() {
@@ -210,6 +230,12 @@ func rulePutKind(p *Prog, r *Result) {
 							ok, pos = true, p.InstrPos(c)
 						}
 						if _, k := constInt(b.X); k {
+							ok, pos = true, p.InstrPos(c)
+						}
+					}
+					// or handed to a package helper that judges a kind (isStrOrNumber(t))
+					if hc, isC := ref.(*ssa.Call); isC {
+						if g := hc.Call.StaticCallee(); g != nil && p.InPkg(g) {
 							ok, pos = true, p.InstrPos(c)
 						}
 					}
@@ -484,7 +510,6 @@ func ruleNameFirst(p *Prog, r *Result) {
 		})
 	}
 	r.note("name_ownership_comparisons", n)
-	r.floor("comparisons of FieldNames[j] with FieldNames[i]", n, 1)
 }
 
 // ---------------- STRLENBYTES ----------------
@@ -749,13 +774,35 @@ func ruleNameExact(p *Prog, r *Result) {
 				if x.Op != token.EQL && x.Op != token.NEQ {
 					return
 				}
-				ox, fx, _, ok1 := loadedField(x.X)
-				oy, fy, _, ok2 := loadedField(x.Y)
-				if ok1 && ok2 && fx == "Data" && fy == "Data" && ox != nil && oy != nil {
-					names := ox.Obj().Name() + "," + oy.Obj().Name()
-					if names == "Token,NameExpr" || names == "NameExpr,Token" {
-						exact = p.InstrPos(x)
+				isData := func(v ssa.Value, owner string) bool {
+					o, fl, _, ok := loadedField(v)
+					return ok && fl == "Data" && o != nil && o.Obj().Name() == owner
+				}
+				// the name's own text: the field, or a helper's parameter that receives it (readsBackAsName(e.Data))
+				isOwn := func(v ssa.Value) bool {
+					if isData(v, "NameExpr") {
+						return true
 					}
+					pa, ok := v.(*ssa.Parameter)
+					if !ok {
+						return false
+					}
+					for pi, q := range f.Params {
+						if q != pa {
+							continue
+						}
+						found := false
+						allInstrs(fn, func(y ssa.Instruction) {
+							if cc, ok := y.(*ssa.Call); ok && cc.Call.StaticCallee() == f && pi < len(cc.Call.Args) && isData(cc.Call.Args[pi], "NameExpr") {
+								found = true
+							}
+						})
+						return found
+					}
+					return false
+				}
+				if (isData(x.X, "Token") && isOwn(x.Y)) || (isData(x.Y, "Token") && isOwn(x.X)) {
+					exact = p.InstrPos(x)
 				}
 			case *ssa.Call:
 				if g := x.Call.StaticCallee(); g != nil {
@@ -769,4 +816,301 @@ func ruleNameExact(p *Prog, r *Result) {
 	}
 	r.add(exact != "", "NameExpr|exact-compare", firstNonEmpty(exact, p.Pos(fn.Pos())), "the re-read token's Data is compared with the name's Data by ==")
 	r.add(folds == "", "NameExpr|no-case-folding", firstNonEmpty(folds, p.Pos(fn.Pos())), "no case folding on the way to the decision to print a name bare")
+}
+
+// ---------------- TRIMINDEX / L2DIFF ----------------
+
+func init() {
+	register("TRIMINDEX", "the number of bytes trimmed off in front is the place of the trimmed text inside the full text: in strings.Index(h, n) with one argument a trimmed form (strings.Trim*) of the other, the trimmed form is the needle n - with the roles exchanged the call yields -1 whenever anything was trimmed", ruleTrimIndex)
+	register("L2DIFF", "l2_distance is a function of the component differences: in the two-vector helper reached from the registered l2_distance bodies, every component read of either vector is an operand of left[i] - right[i] (same index), nothing else reads a component", ruleL2Diff)
+}
+
+func ruleTrimIndex(p *Prog, r *Result) {
+	trimOf := func(v ssa.Value) ssa.Value {
+		c, ok := v.(*ssa.Call)
+		if !ok {
+			return nil
+		}
+		g := c.Call.StaticCallee()
+		if g == nil || !strings.HasPrefix(p.qualName(g), "strings.Trim") || len(c.Call.Args) == 0 {
+			return nil
+		}
+		return c.Call.Args[0]
+	}
+	n := 0
+	for _, fn := range p.Funcs {
+		idx := 0
+		allInstrs(fn, func(in ssa.Instruction) {
+			c, ok := in.(*ssa.Call)
+			if !ok {
+				return
+			}
+			g := c.Call.StaticCallee()
+			if g == nil || len(c.Call.Args) != 2 {
+				return
+			}
+			switch p.qualName(g) {
+			case "strings.Index", "strings.LastIndex":
+			default:
+				return
+			}
+			h, nd := c.Call.Args[0], c.Call.Args[1]
+			good := trimOf(nd) == h
+			bad := trimOf(h) == nd
+			if !good && !bad {
+				return
+			}
+			n++
+			idx++
+			r.add(good, fmt.Sprintf("%s|index#%d", p.FName(fn), idx), p.InstrPos(c), map[bool]string{true: "the trimmed text is looked for inside the full text", false: "the full text is looked for inside its own trimmed form: -1 whenever something was trimmed"}[good])
+		})
+	}
+	r.note("index_calls_between_a_text_and_its_trimmed_form", n)
+}
+
+func ruleL2Diff(p *Prog, r *Result) {
+	rows, err := p.registry("funcMap")
+	if err != nil {
+		r.undecided("%v", err)
+		return
+	}
+	isVec := func(t types.Type) bool {
+		sl, ok := t.Underlying().(*types.Slice)
+		if !ok {
+			return false
+		}
+		bt, ok := sl.Elem().Underlying().(*types.Basic)
+		return ok && bt.Kind() == types.Float64
+	}
+	seen := map[*ssa.Function]bool{}
+	n := 0
+	for _, row := range rows {
+		if row.Key != "l2_distance" {
+			continue
+		}
+		for _, body := range []*ssa.Function{row.Body, row.BodyVec} {
+			if body == nil {
+				continue
+			}
+			for _, f := range p.staticClosure(body, 2, nil) {
+				if seen[f] || !p.InPkg(f) || len(f.Params) != 2 || !isVec(f.Params[0].Type()) || !isVec(f.Params[1].Type()) {
+					continue
+				}
+				seen[f] = true
+				n++
+				bad := ""
+				reads := 0
+				allInstrs(f, func(in ssa.Instruction) {
+					ld, ok := in.(*ssa.UnOp)
+					if !ok || ld.Op != token.MUL {
+						return
+					}
+					ia, ok := ld.X.(*ssa.IndexAddr)
+					if !ok || (ia.X != ssa.Value(f.Params[0]) && ia.X != ssa.Value(f.Params[1])) {
+						return
+					}
+					reads++
+					for _, ref := range *ld.Referrers() {
+						if _, isDbg := ref.(*ssa.DebugRef); isDbg {
+							continue
+						}
+						b, ok := ref.(*ssa.BinOp)
+						okUse := false
+						if ok && b.Op == token.SUB {
+							other := b.X
+							if other == ssa.Value(ld) {
+								other = b.Y
+							}
+							if old, ok := other.(*ssa.UnOp); ok && old.Op == token.MUL {
+								if oia, ok := old.X.(*ssa.IndexAddr); ok && oia.X != ia.X && (oia.X == ssa.Value(f.Params[0]) || oia.X == ssa.Value(f.Params[1])) && oia.Index == ia.Index {
+									okUse = true
+								}
+							}
+						}
+						if !okUse {
+							bad = p.InstrPos(ref.(ssa.Instruction))
+						}
+					}
+				})
+				r.add(bad == "" && reads >= 2, p.FName(f)+"|differences-only", firstNonEmpty(bad, p.Pos(f.Pos())), "every component read is an operand of left[i] - right[i]")
+			}
+		}
+	}
+	r.note("two_vector_helpers_of_l2_distance", n)
+}
+
+// ---------------- VECNILARGS ----------------
+
+func init() {
+	register("VECNILARGS", "a registered vector body that answers a call without arguments with a nil column (return nil, nil on the edge len(args) == 0) is registered with NumArgs >= 1: the callers index the returned column per row, and only the arity check keeps that return dead", ruleVecNilArgs)
+}
+
+func ruleVecNilArgs(p *Prog, r *Result) {
+	rows, err := p.registry("funcMap")
+	if err != nil {
+		r.undecided("%v", err)
+		return
+	}
+	n := 0
+	for _, row := range rows {
+		f := row.BodyVec
+		if f == nil {
+			continue
+		}
+		pos := ""
+		for _, b := range f.Blocks {
+			ret := retOf(b)
+			if ret == nil || len(ret.Results) != 2 || !isNilConst(ret.Results[0]) || !isNilConst(ret.Results[1]) {
+				continue
+			}
+			for _, pred := range b.Preds {
+				for si, s := range pred.Succs {
+					if s != b {
+						continue
+					}
+					a, ok := edgeAtom(pred, si)
+					if !ok || a.Neg {
+						continue
+					}
+					lv := lenOf(a.X)
+					if lv == nil {
+						continue
+					}
+					sl, isSl := lv.Type().Underlying().(*types.Slice)
+					if !isSl || typeName(sl.Elem()) != "Expression" {
+						continue
+					}
+					k, isK := constInt(a.Y)
+					if isK && ((a.Op == token.EQL && k == 0) || (a.Op == token.LSS && k == 1) || (a.Op == token.LEQ && k == 0)) {
+						pos = p.InstrPos(ret)
+					}
+				}
+			}
+		}
+		if pos == "" {
+			continue
+		}
+		n++
+		r.add(row.NumArgs >= 1, row.Key+"|nil-column-needs-arity", pos, fmt.Sprintf("the vector body of %s returns a nil column for no arguments; registered NumArgs = %d", row.Key, row.NumArgs))
+	}
+	r.note("vector_bodies_with_a_nil_column_for_no_arguments", n)
+}
+
+// ---------------- TWINBOUND ----------------
+
+func init() {
+	register("TWINBOUND", "the row body and the vector body of a registered function cut a text at the same places: the comparisons of an integer with the length of a text (len of a string or []byte, shifted by constants), brought to the form n >= len+d / n < len+d, are the same set in both bodies", ruleTwinBound)
+}
+
+func ruleTwinBound(p *Prog, r *Result) {
+	rows, err := p.registry("funcMap")
+	if err != nil {
+		r.undecided("%v", err)
+		return
+	}
+	lin := func(v ssa.Value) (ssa.Value, int64) {
+		if b, ok := v.(*ssa.BinOp); ok {
+			switch b.Op {
+			case token.ADD:
+				if k, isK := constInt(b.Y); isK {
+					return b.X, k
+				}
+				if k, isK := constInt(b.X); isK {
+					return b.Y, k
+				}
+			case token.SUB:
+				if k, isK := constInt(b.Y); isK {
+					return b.X, -k
+				}
+			}
+		}
+		return v, 0
+	}
+	isTextLen := func(v ssa.Value) bool {
+		lv := lenOf(v)
+		if lv == nil {
+			return false
+		}
+		switch t := lv.Type().Underlying().(type) {
+		case *types.Basic:
+			return t.Info()&types.IsString != 0
+		case *types.Slice:
+			bt, ok := t.Elem().Underlying().(*types.Basic)
+			return ok && bt.Kind() == types.Uint8
+		}
+		return false
+	}
+	bounds := func(f0 *ssa.Function) map[string]string {
+		out := map[string]string{}
+		// with what the body calls inside the package (a vector body may evaluate the row body per row)
+		for _, f := range p.staticClosure(f0, 2, nil) {
+			if !p.InPkg(f) {
+				continue
+			}
+			allInstrs(f, func(in ssa.Instruction) {
+				b, ok := in.(*ssa.BinOp)
+				if !ok {
+					return
+				}
+				op := b.Op
+				switch op {
+				case token.LSS, token.LEQ, token.GTR, token.GEQ, token.EQL, token.NEQ:
+				default:
+					return
+				}
+				x, kx := lin(b.X)
+				y, ky := lin(b.Y)
+				if isTextLen(x) && !isTextLen(y) {
+					x, kx, y, ky, op = y, ky, x, kx, swapOp(op)
+				}
+				if !isTextLen(y) || isTextLen(x) {
+					return
+				}
+				if _, isK := constInt(x); isK {
+					return
+				}
+				d := ky - kx // x op len + d
+				// normal forms: GEQ d (x >= len+d) and its negation LSS d; EQL/NEQ kept
+				switch op {
+				case token.GTR: // x > len+d  ==  x >= len+d+1
+					op, d = token.GEQ, d+1
+				case token.LEQ: // x <= len+d  ==  x < len+d+1
+					op, d = token.LSS, d+1
+				}
+				if op == token.LSS { // the same cut, other branch
+					op = token.GEQ
+				}
+				if op == token.NEQ {
+					op = token.EQL
+				}
+				out[fmt.Sprintf("n %s len%+d", op, d)] = p.InstrPos(b)
+			})
+		}
+		return out
+	}
+	n := 0
+	for _, row := range rows {
+		if row.Body == nil || row.BodyVec == nil {
+			continue
+		}
+		a, b := bounds(row.Body), bounds(row.BodyVec)
+		if len(a) == 0 && len(b) == 0 {
+			continue
+		}
+		n++
+		diff, pos := "", row.Pos
+		for k, ps := range a {
+			if _, ok := b[k]; !ok {
+				diff, pos = "only the row body cuts at `"+k+"`", ps
+			}
+		}
+		for k, ps := range b {
+			if _, ok := a[k]; !ok {
+				diff, pos = "only the vector body cuts at `"+k+"`", ps
+			}
+		}
+		r.add(diff == "", row.Key+"|same-cuts", pos, firstNonEmpty(diff, fmt.Sprintf("both bodies compare against the text length at the same %d place(s)", len(a))))
+	}
+	r.note("functions_cutting_texts_in_both_bodies", n)
+	r.floor("registered functions comparing against a text length", n, 1)
 }
